@@ -482,17 +482,18 @@ func (ndb *nodeDB) deleteVersion(version int64, cache *rootkeyCache) error {
 					return err
 				}
 			}
-			if orphan.nodeKey.nonce == 1 && orphan.nodeKey.version < version {
-				// if the orphan is referred to the previous root, it should be reformatted
-				// to (version, 0), because the root (version, 1) should be removed but not
-				// applied now due to the batch writing.
-				orphan.nodeKey.nonce = 0
-			}
-			nk := orphan.GetKey()
 			if orphan.isLegacy {
-				return ndb.deleteFromPruning(ndb.legacyNodeKey(nk))
+				return ndb.deleteFromPruning(ndb.legacyNodeKey(orphan.GetKey()))
 			}
-			return ndb.deleteFromPruning(ndb.nodeKey(nk))
+			nk := orphan.nodeKey
+			if nk.nonce == 1 && nk.version < version {
+				// if the orphan is referred to the previous root, it has been reformatted
+				// to (version, 0), because the root (version, 1) should be removed but not
+				// applied now due to the batch writing. The orphan itself may be shared
+				// with concurrent readers through the node cache, so it is not modified.
+				nk = &NodeKey{version: nk.version, nonce: 0}
+			}
+			return ndb.deleteFromPruning(ndb.nodeKey(nk.GetKey()))
 		}); err != nil && !errors.Is(err, ErrVersionDoesNotExist) {
 			return err
 		}
@@ -520,8 +521,10 @@ func (ndb *nodeDB) deleteVersion(version int64, cache *rootkeyCache) error {
 		// the root should be reformatted to (version, 0); queue the new copy first, so
 		// that a flush between the two operations never leaves the next version's
 		// root reference without a target
-		root.nodeKey.nonce = 0
-		if err := ndb.saveNodeFromPruning(root); err != nil {
+		// (the cached root is shared with readers of the next version: save a re-keyed copy)
+		rekeyed := *root
+		rekeyed.nodeKey = &NodeKey{version: root.nodeKey.version, nonce: 0}
+		if err := ndb.saveNodeFromPruning(&rekeyed); err != nil {
 			return err
 		}
 		// ensure that the given version is not included in the root search
